@@ -585,10 +585,28 @@ def appends (v : Variant) (cmp : Nat → Bytes → Bytes → Bool) (s0 : Bytes) 
     | none => none
     | some f => appends v cmp f r
 
-/-- the interrupted write must not leave, where the repair walk looks, bytes that read as
-    `END header ++ trailer` (DESIGN C07): decidable, evaluated by the driver on every image -/
+/-- the recovery decision of the writer (simulationarchive.c:484-587), as a function of the file alone:
+    `(size_old, last_blob, contents of field, file_corrupt)`; `none` = "A recovery attempt has failed" -/
+def recoverOf (file : Bytes) : Option (Nat × Nat × Bytes × Bool) :=
+  let sc := scanFirst (file.length + 1) 64 (file.drop 64) (List.replicate 16 0)
+  if !sc.2.1 then none
+  else
+    let tb0 := (file.drop sc.1).take 12
+    if tb0.length < 12 then none
+    else
+      let more := decide (sgn32 (de ((tb0.drop 8).take 4)) > 0)
+      let fc := fileCorrupt file more sc.2.2
+      let rw := if fc.1 then repairWalk file (file.length + 1) sc.1 (sc.1 + 12) fc.2 else (file.length, fc.2)
+      some (sc.1, rw.1, rw.2, fc.1)
+
+/-- **NoFakeTrailer** (DESIGN C07), the explicit hypothesis of the restart theorem: the writer's recovery
+    logic — which looks only at the last 28 bytes, one earlier trailer and, if those look wrong, at the
+    END/trailer positions along the offset chain — ends at `lastIntact`, the end of the last intact blob,
+    with a clean END template.  An interrupted write whose bytes imitate `END header ++ trailer` at the
+    places it looks defeats it.  Decidable; the driver evaluates it on every generated image. -/
 def noFakeTrailer (img : Bytes) (lastIntact : Nat) : Bool :=
-  let sizeOld := (scanFirst (img.length + 1) 64 (img.drop 64) []).1
-  (repairWalk img (img.length + 1) sizeOld (sizeOld + 12) []).1 == lastIntact
+  match recoverOf img with
+  | some (_, last, fld, _) => last == lastIntact && (fld.drop 4).take 4 == [0, 0, 0, 0]
+  | none => false
 
 end RV.Bin
